@@ -147,7 +147,9 @@ func NearLits(thorough bool) []*Spec {
 		out = append(out, FloatSpec(v))
 	}
 	// payloads that print alike across types
-	out = append(out, IntSpec(0), FloatSpec(0), IntSpec(1), FloatSpec(1), TextSpec("1"))
+	out = append(out, IntSpec(0), FloatSpec(0), IntSpec(1), FloatSpec(1), TextSpec("1"),
+		// floats that a fixed number of decimals cannot tell apart
+		FloatSpec(5e-324), FloatSpec(1e-7), FloatSpec(2e-7), FloatSpec(0.1234561), FloatSpec(0.1234564))
 	return Dedup(out)
 }
 
